@@ -43,6 +43,11 @@ class C10(PureCheck):
             yield {"op": "width", "f": f}
             for off in range(0, n + 2):
                 yield {"op": "width_at", "f": f, "off": off}
+                # the same object measured at an offset first, then asked for its width / a column slice
+                yield {"op": "width", "f": f, "pre_off": off}
+            if w:
+                yield {"op": "wslice", "f": f, "a": 0, "b": w, "pre_off": max(0, n - 1)}
+                yield {"op": "wslice", "f": f, "a": max(0, w - 2), "b": w, "pre_off": n // 2}
             for a in range(0, w + 3):
                 for b in range(a, w + 3):
                     yield {"op": "wslice", "f": f, "a": a, "b": b}
@@ -51,6 +56,11 @@ class C10(PureCheck):
         ev = dict(inp)
         f = enc.build_fmtstr(inp["f"])
         op = inp["op"]
+        if "pre_off" in inp:
+            try:
+                f.width_at_offset(inp["pre_off"])
+            except Exception:  # noqa
+                pass
         if op == "width":
             try:
                 ev["n"] = f.width
